@@ -106,6 +106,7 @@ def run(ctx, tier):
     ctx.rule("S6", "(shared with C07) byte accounting of the in-place editors")
     ctx.rule("M1", "fixed-width block reads/writes (SIMD loads, 8-byte memcpy words) stay inside the buffer")
     ctx.rule("M2", "copies into fixed-size stack arrays are bounded by the array size")
+    ctx.rule("M3", "look-ahead reads x[i + k] (k >= 1) keep the dominating guard that bounds them")
     cfgs = ["release"] if tier == "quick" else ["release", "devchecks", "amalgamated", "avx512"]
     check_fixture(ctx)
     isa = ["release"] if tier == "quick" else ["release", "ssse3", "avx512"]
@@ -121,6 +122,7 @@ def run(ctx, tier):
         ctx.set_config(name)
         check_parser_loop(ctx, fxs[name])
         check_loops(ctx, fxs[name], name)
+        check_lookahead(ctx, fxs[name], name)
     # a url_aggregator offset that is off by a few bytes is an out-of-range substr()/erase() (std::out_of_range escapes,
     # or bytes outside the component are read) for particular component lengths: the offset discipline is part of C02
     from rules import c07
@@ -710,3 +712,94 @@ def check_loops(ctx, fx, cfg):
                 if v == "variant":
                     ctx.ok("T2", "%s at %s" % (key, l), w, where=l)
     ctx.floor("T2", nv, 125, "loops with a recognised variant")
+
+
+# ---------------------------------------------------------------------------
+def lookahead_sites(fx):
+    """(function, access text, location, proven?) for every subscript whose index has a constant part >= 1."""
+    from lib.condflow import closure
+    out = []
+    seen = set()
+    for f in fx.functions:
+        if not C.first_party(f):
+            continue
+        sites = []
+        for b in f["blocks"]:
+            items = [(i, s, list(X.stmt_nodes(s, local=True))) for i, s in enumerate(b["stmts"])]
+            c = C.term_cond(b)
+            if c is not None:
+                items.append((len(b["stmts"]), b["term"], list(X.walk(c, local=True))))
+            for i, s, nodes in items:
+                for n in nodes:
+                    base = idx = None
+                    if n.get("k") == "index":
+                        base, idx = n["base"], n["idx"]
+                    elif n.get("k") == "call" and n.get("name") == "operator[]" and n.get("recv") is not None and \
+                            (n.get("cls") or "").startswith(("std::basic_string_view", "std::basic_string<")):
+                        base, idx = n["recv"], n["args"][0]
+                    if base is None:
+                        continue
+                    ts, c0 = lin(idx)
+                    if c0 < 1:
+                        continue
+                    sites.append((b["id"], i, s, n, base, ts, c0))
+        if not sites:
+            continue
+        cf = CondFlow(f)
+        for bid, i, s, n, base, ts, c0 in sites:
+            loc = (s.get("loc") or s.get("cond_loc") or "")
+            k = (f["qname"], loc, X.show(n))
+            if k in seen:
+                continue
+            seen.add(k)
+            fs = cf.facts_before(bid, i)
+            if fs is None:
+                continue
+            fs = closure(fs)
+            alts = [ts]
+            b0 = X.strip(base)
+            if isinstance(b0, dict) and "*" in (b0.get("ty") or "") and b0.get("k") == "ref":
+                alts.append(tuple(sorted(list(ts) + ["+" + b0["name"]], key=lambda x: (x[0] != "+", x[1:]))))
+            ok = None
+            for (op, t2, c2) in fs:
+                negs = [t for t in t2 if t.startswith("-")]
+                pos = tuple(t for t in t2 if t.startswith("+"))
+                if len(negs) == 1 and pos in alts:
+                    if (op == "lt" and c2 >= c0) or (op == "le" and c2 >= c0 + 1) or (op == "eq" and c2 >= c0 + 1):
+                        ok = negs[0][1:]
+            out.append((f, rn(n) if n.get("k") == "index" else "%s[%s]" % (rn(base), rn(n["args"][0])), loc.replace("/repo/", ""), ok))
+    return out
+
+
+def check_lookahead(ctx, fx, cfg):
+    """M3.  A subscript `x[i + k]` with constant k >= 1 reads k elements ahead of the cursor; it is in bounds because a
+    dominating comparison says `i + k < size` (in normal form, possibly through one equality such as
+    `remaining = end - p - 1`).  The sites proven on the confirmed tree (spec/lookahead_confirmed.json) must stay proven:
+    weakening or dropping the guard turns the read into an out-of-bounds access for inputs that end right there."""
+    import json
+    import os
+    with open(os.path.join(os.path.dirname(os.path.dirname(os.path.abspath(__file__))), "spec", "lookahead_confirmed.json")) as fh:
+        table = json.load(fh)["sites"]
+    now = {}
+    for f, acc, loc, ok in lookahead_sites(fx):
+        now.setdefault("%s | %s" % (f["qname"], acc), []).append((ok, loc))
+    nproved = 0
+    for key, ents in sorted(now.items()):
+        have = sum(1 for ok, l in ents if ok)
+        nproved += have
+        want = table.get(key)
+        if want is None:
+            continue
+        if have < want:
+            for ok, l in ents:
+                if not ok:
+                    ctx.fail("M3", "%s at %s" % (key, l), "this look-ahead read was bounded by a dominating guard (`index + k < size`) and no "
+                             "longer is: for an input that ends at the cursor it reads past the end of the buffer", where=l)
+        else:
+            for ok, l in ents:
+                if ok:
+                    ctx.ok("M3", "%s at %s" % (key, l), "bounded by %s" % ok, where=l)
+    unp = sum(1 for ents in now.values() for ok, l in ents if not ok)
+    ctx.note("M3 (%s): %d look-ahead reads bounded by a dominating guard, %d not decided (caller contracts, table layouts, guards "
+             "through other variables)" % (cfg, nproved, unp))
+    ctx.floor("M3", nproved, 115, "look-ahead reads bounded by a dominating guard")
